@@ -67,6 +67,35 @@ pub fn compare(fz: &Freezer, frozen: &[BlockView]) -> Result<(), Diff> {
     Ok(())
 }
 
+pub fn compare_light(fz: &Freezer, frozen: &[BlockView], pick: u64) -> Result<(), Diff> {
+    let n = fz.number();
+    let len = frozen.len() as u64;
+    if n != len + 1 {
+        return Err(Diff {
+            symptom: "number_mismatch",
+            detail: format!("number()={} but {} blocks are frozen in the model", n, len),
+        });
+    }
+    let mut idx = vec![];
+    if len >= 1 {
+        idx.push(pick % len + 1);
+    }
+    if len >= 2 {
+        idx.push(len - 1);
+    }
+    if len >= 1 {
+        idx.push(len);
+    }
+    for i in idx {
+        read_one(fz, frozen, i)?;
+    }
+    match fz.retrieve(len + 1) {
+        Ok(None) => Ok(()),
+        Ok(Some(v)) => Err(Diff { symptom: "beyond_range_not_none", detail: format!("retrieve({}) returned {} bytes", len + 1, v.len()) }),
+        Err(e) => Err(Diff { symptom: "beyond_range_not_none", detail: format!("retrieve({}) = Err({e})", len + 1) }),
+    }
+}
+
 pub fn read_one(fz: &Freezer, frozen: &[BlockView], i: u64) -> Result<(), Diff> {
     let want = frozen[i as usize - 1].data();
     match fz.retrieve(i) {
@@ -375,7 +404,7 @@ fn eval_state(h: &mut FH, plan: &Plan, dc: DataCut, ic: u64, class: &'static str
     h.st.count("freezer.open_evaluations");
     let lower = plan.lower_bound(dc, ic);
     let wt = h.weight();
-    let mut fz = match Freezer::open(dir.to_path_buf()) {
+    let fz = match Freezer::open(dir.to_path_buf()) {
         Ok(f) => f,
         Err(e) => {
             let w = h.crash_witness(plan, dc, ic, class, None);
@@ -410,7 +439,7 @@ fn eval_state(h: &mut FH, plan: &Plan, dc: DataCut, ic: u64, class: &'static str
             || w,
         );
     }
-    let mut frozen: Vec<BlockView> = h.frozen[..n as usize].to_vec();
+    let frozen: Vec<BlockView> = h.frozen[..n as usize].to_vec();
     if let Err(d) = compare(&fz, &frozen) {
         let w = h.crash_witness(plan, dc, ic, class, Some(n));
         return h.st.violation(
@@ -421,97 +450,121 @@ fn eval_state(h: &mut FH, plan: &Plan, dc: DataCut, ic: u64, class: &'static str
         );
     }
 
-    let mut rng = Rng::new(sub);
-    let mut steps: Vec<String> = vec![];
-    let genesis = h.genesis.clone();
-    let mut diverged: Option<(&'static str, String)> = None;
-    let pokes = rng.chance(1, 4);
+    let pokes = Rng::new(sub ^ 0x9e37).chance(1, 4);
     if pokes {
         h.st.count("freezer.post_crash.with_random_reads");
     }
-    'follow: {
-        macro_rules! chk {
-            ($what:expr) => {
-                h.st.eval();
-                if let Err(d) = compare(&fz, &frozen) {
-                    diverged = Some(("diverged", format!("after {}: {}: {}", $what, d.symptom, d.detail)));
-                    break 'follow;
+    let Some((mut symptom, mut d, mut steps)) = follow_up(h, fz, n as usize, sub, pokes) else {
+        return;
+    };
+    let mut label = class;
+    if pokes {
+        // attribute: does the same follow-up (same writes) also diverge without the reads?
+        let again = crash::clear_dir(dir)
+            .and_then(|_| plan.materialize(dir, dc, ic))
+            .map_err(|e| e.to_string())
+            .and_then(|_| Freezer::open(dir.to_path_buf()).map_err(|e| e.to_string()));
+        match again {
+            Ok(fz2) => match follow_up(h, fz2, n as usize, sub, false) {
+                Some((s2, d2, st2)) => {
+                    symptom = s2;
+                    d = d2;
+                    steps = st2;
                 }
-                if pokes && !frozen.is_empty() && rng.chance(3, 4) {
-                    let i = rng.range(1, frozen.len() as u64);
-                    steps.push(format!("retrieve({i})"));
-                    if let Err(d) = read_one(&fz, &frozen, i) {
-                        diverged = Some(("diverged", format!("after {}: {}: {}", $what, d.symptom, d.detail)));
-                        break 'follow;
-                    }
-                }
-            };
+                None => label = RR,
+            },
+            Err(e) => return h.st.harness_error(format!("re-materialize for attribution: {e}")),
         }
-        macro_rules! tip {
-            ($what:expr) => {
-                if !frozen.is_empty() {
-                    h.st.eval();
-                    h.st.count("freezer.tip_checks");
-                    if let Err(d) = unlinked_refused(&fz, &frozen, &mut rng) {
-                        diverged = Some(("accepted_unlinked_block", format!("after {}: {}", $what, d)));
-                        break 'follow;
-                    }
-                }
-            };
-        }
-        tip!("open");
-        let k = rng.range(1, 2) as usize;
-        let blocks = new_blocks(&mut rng, &frozen, &genesis, k);
-        steps.push(format!("freeze(+{k})"));
-        h.st.count("freezer.post_crash.freeze");
-        if let Err(d) = freeze_blocks(&fz, &mut frozen, &blocks, None, &|| {}) {
-            diverged = Some(("diverged", d));
-            break 'follow;
-        }
-        chk!("freeze");
-        if rng.chance(1, 3) && frozen.len() >= 2 {
-            let t = rng.range(1, frozen.len() as u64 - 1);
-            steps.push(format!("truncate({t})"));
-            h.st.count("freezer.post_crash.truncate");
-            if let Err(e) = fz.truncate(t) {
-                diverged = Some(("diverged", format!("truncate({t}) = Err({e})")));
-                break 'follow;
+    }
+    let mut w = h.crash_witness(plan, dc, ic, class, Some(n));
+    w["post_crash_steps"] = json!(steps);
+    h.st.violation(
+        &format!("{LVL}.post_crash.{symptom}@{label}"),
+        format!("open gave a correct prefix of {n} blocks, then: {d}"),
+        wt,
+        || w,
+    );
+}
+
+/// Follow-up operations on a re-opened crash state (`fz` holds exactly `h.frozen[..n]`).
+fn follow_up(
+    h: &mut FH,
+    mut fz: Freezer,
+    n: usize,
+    sub: u64,
+    pokes: bool,
+) -> Option<(&'static str, String, Vec<String>)> {
+    let dir: &Path = &h.dirs.crash;
+    let mut frozen: Vec<BlockView> = h.frozen[..n].to_vec();
+    let mut rng = Rng::new(sub);
+    let mut prng = Rng::new(sub ^ 0x706f6b65);
+    let mut steps: Vec<String> = vec![];
+    let genesis = h.genesis.clone();
+    macro_rules! chk {
+        ($what:expr, $full:expr) => {
+            h.st.eval();
+            let pick = prng.next_u64();
+            let r = if $full { compare(&fz, &frozen) } else { compare_light(&fz, &frozen, pick) };
+            if let Err(d) = r {
+                return Some(("diverged", format!("after {}: {}: {}", $what, d.symptom, d.detail), steps));
             }
-            frozen.truncate(t as usize);
-            chk!("truncate");
-            tip!("truncate");
-        }
-        drop(fz);
-        steps.push("reopen".into());
-        h.st.count("freezer.post_crash.reopen");
-        fz = match Freezer::open(dir.to_path_buf()) {
-            Ok(f) => f,
-            Err(e) => {
-                diverged = Some(("diverged", format!("second open = Err({e})")));
-                break 'follow;
+            if pokes && !frozen.is_empty() && prng.chance(3, 4) {
+                let i = prng.range(1, frozen.len() as u64);
+                steps.push(format!("retrieve({i})"));
+                if let Err(d) = read_one(&fz, &frozen, i) {
+                    return Some(("diverged", format!("after {}: {}: {}", $what, d.symptom, d.detail), steps));
+                }
             }
         };
-        chk!("reopen");
-        tip!("reopen");
-        let blocks = new_blocks(&mut rng, &frozen, &genesis, 1);
-        steps.push("freeze(+1)".into());
-        h.st.count("freezer.post_crash.freeze");
-        if let Err(d) = freeze_blocks(&fz, &mut frozen, &blocks, None, &|| {}) {
-            diverged = Some(("diverged", d));
-            break 'follow;
+    }
+    macro_rules! tip {
+        ($what:expr) => {
+            if !frozen.is_empty() {
+                h.st.eval();
+                h.st.count("freezer.tip_checks");
+                if let Err(d) = unlinked_refused(&fz, &frozen, &mut rng) {
+                    return Some(("accepted_unlinked_block", format!("after {}: {}", $what, d), steps));
+                }
+            }
+        };
+    }
+    tip!("open");
+    let k = rng.range(1, 2) as usize;
+    let blocks = new_blocks(&mut rng, &frozen, &genesis, k);
+    steps.push(format!("freeze(+{k})"));
+    h.st.count("freezer.post_crash.freeze");
+    if let Err(d) = freeze_blocks(&fz, &mut frozen, &blocks, None, &|| {}) {
+        return Some(("diverged", d, steps));
+    }
+    chk!("freeze", false);
+    if rng.chance(1, 3) && frozen.len() >= 2 {
+        let t = rng.range(1, frozen.len() as u64 - 1);
+        steps.push(format!("truncate({t})"));
+        h.st.count("freezer.post_crash.truncate");
+        if let Err(e) = fz.truncate(t) {
+            return Some(("diverged", format!("truncate({t}) = Err({e})"), steps));
         }
-        chk!("freeze");
+        frozen.truncate(t as usize);
+        chk!("truncate", false);
+        tip!("truncate");
     }
-    if let Some((symptom, d)) = diverged {
-        let mut w = h.crash_witness(plan, dc, ic, class, Some(n));
-        w["post_crash_steps"] = json!(steps);
-        h.st.violation(
-            &format!("{LVL}.post_crash.{symptom}@{}", if pokes { RR } else { class }),
-            format!("open gave a correct prefix of {n} blocks, then: {d}"),
-            wt,
-            || w,
-        );
+    drop(fz);
+    steps.push("reopen".into());
+    h.st.count("freezer.post_crash.reopen");
+    fz = match Freezer::open(dir.to_path_buf()) {
+        Ok(f) => f,
+        Err(e) => return Some(("diverged", format!("second open = Err({e})"), steps)),
+    };
+    chk!("reopen", true);
+    tip!("reopen");
+    let blocks = new_blocks(&mut rng, &frozen, &genesis, 1);
+    steps.push("freeze(+1)".into());
+    h.st.count("freezer.post_crash.freeze");
+    if let Err(d) = freeze_blocks(&fz, &mut frozen, &blocks, None, &|| {}) {
+        return Some(("diverged", d, steps));
     }
+    chk!("freeze", true);
+    None
 }
 
 pub fn run_random(cfg: &FCfg, idx: u64, dirs: &Dirs, st: &mut Stats) {
